@@ -1,5 +1,6 @@
 import AfkakProofs.Consumer.Pure
 import AfkakProofs.Consumer.Trace
+import AfkakProofs.Consumer.B_C14e
 import AfkakProps.Open.C14
 /-!
 # C14 — retries, offset-reset policy and buffer growth follow the contract
@@ -141,6 +142,60 @@ theorem C14_growth_trace (cfg : Cfg) (script : List PEntry) (evs : List Ev) :
 example : growN none 5 fetchBufferSizeBytes ≥ 20 * 2 ^ 20 ∧ growN none 4 fetchBufferSizeBytes < 20 * 2 ^ 20 := by decide
 example : grow (2 ^ 20) (some (2 ^ 24)) = some (2 ^ 24) ∧ grow (2 ^ 24) (some (2 ^ 24)) = none := by decide
 
+/-- Trace level: on every trace (any configuration with non-negative delays, any script, any events) the back-off
+    delays after consecutive failed fetch/offset requests are `min(init·factor^k, max)`, growing up to the maximum,
+    reset by a successful reply; immediate refetches (delay 0) happen only outside failure handling. -/
+theorem C14_delays : Open.C14.C14_delays := by
+  intro cfg script evs h0 h1
+  have h := B.run_c cfg False script (fun h => h.elim) evs (fun h => h.elim)
+  exact accepts_trace _ _ cfg script evs (h.2.2.1 ⟨h0, h1⟩).d1
+
+/-- Trace level: a too-small answer that carried no complete message never changes the offset of the next fetch
+    request, on every trace (any configuration, script, events: parked and late replies, restarts, failures between). -/
+theorem C14_never_skips_trace : Open.C14.C14_never_skips_trace := by
+  intro cfg script evs
+  have h := B.run_c cfg False script (fun h => h.elim) evs (fun h => h.elim)
+  exact accepts_trace _ _ cfg script evs h.2.1.n1
+
+/-- The reset-policy statement speaks of configurations the constructor accepts (`auto_offset_reset` is None,
+    OFFSET_EARLIEST or OFFSET_LATEST: anything else raises ValueError in `Consumer.__init__`) … -/
+def resetCfgOk (cfg : Cfg) : Bool :=
+  match cfg.reset with
+  | none => true
+  | some v => v == offsetEarliest || v == offsetLatest
+
+/-- … and of OffsetResponses that carry a Kafka offset (≥ 0; a broker never answers an offset look-up with a sentinel). -/
+def saneOffsetEvent : Ev → Bool
+  | .offsetOk _ off => decide (0 ≤ off)
+  | _ => true
+
+example : resetCfgOk ({ group := false, autoN := 0, autoS := 0, bufInit := 1, bufMax := none, retryInit := 1, retryMax := 2, maxAttempts := 0, reset := some offsetLatest } : Cfg) = true ∧
+    [Ev.start 5, .fetchErr 0 .outOfRange 1, .retryFire, .offsetOk 1 17].all saneOffsetEvent = true := by decide
+
+/-- Trace level, for accepted configurations and Kafka offsets in OffsetResponses: an out-of-range answer to a fetch
+    request is followed by exactly what the policy says - no policy: the failure is reported on the start Deferred and
+    nothing is retried; earliest/latest: the next request is the OffsetRequest for that time, and fetching goes on
+    exactly at the offset the broker names - on every trace. -/
+theorem C14_reset_policy_trace_partial (cfg : Cfg) (script : List PEntry) (evs : List Ev) (hc : resetCfgOk cfg = true)
+    (he : evs.all saneOffsetEvent = true) : resetOk cfg.reset (trace cfg script evs) = true := by
+  have hres : True → ∀ v, cfg.reset = some v → v = offsetEarliest ∨ v = offsetLatest := by
+    intro _ v hv
+    simpa [resetCfgOk, hv] using hc
+  have hev : True → ∀ e ∈ evs, B.EvSane e := by
+    intro _ e hmem
+    have := List.all_eq_true.1 he e hmem
+    cases e <;> simp_all [saneOffsetEvent, B.EvSane]
+  have h := B.run_c cfg True script hres evs hev
+  exact accepts_trace _ _ cfg script evs (h.2.2.2 trivial).r1
+
+/-- The full statement quantifies over configurations the constructor refuses: with `auto_offset_reset = 5` the model
+    (like the code would, could such a consumer be built) goes on fetching at offset 5 after an out-of-range answer. -/
+theorem C14_reset_policy_trace_counterexample : ¬ Open.C14.C14_reset_policy_trace := by
+  intro h
+  have := h ({ group := false, autoN := 0, autoS := 0, bufInit := 1, bufMax := none, retryInit := 0, retryMax := 0, maxAttempts := 0, reset := some 5 } : Cfg) [] [.start 9, .fetchErr 0 .outOfRange 1, .retryFire]
+  revert this
+  decide +kernel
+
 end Afkak.Props.C14
 
 /- OBLIGATIONS
@@ -154,10 +209,12 @@ C14_backoff_step
 C14_success_resets
 C14_attempt_limit_step
 C14_growth_trace
+C14_delays
+C14_never_skips_trace
+C14_reset_policy_trace_partial
+C14_reset_policy_trace_counterexample
 -/
 /- OPEN_STATEMENTS
-C14_delays
 C14_attempt_limit
 C14_reset_policy_trace
-C14_never_skips_trace
 -/
